@@ -1,4 +1,5 @@
 import AC.RunsProof
+import AC.RunsTie
 /-! # C11 — a chain of run lengths becomes a valid chain of the runs themselves
 
 Model: `P.runsChainX` (alg/dict/runs.go `RunsChain`): `Chain.Program`, `MinMax` by value, the
@@ -45,5 +46,28 @@ theorem C11_refuse_invalid (lc : Chain) (h : ¬ IsChain lc) : runsChainX lc = .e
 
 /-- non-vacuity: a non-ascending lengths chain -/
 example : ValidSteps [1] [(1,1),(2,2),(1,2)] := by simp [ValidSteps]
+
+/-! ## `dict.RunsChain` as TRANSLATED from runs.go
+
+`AC/Gen/ProgramFns.lean` is regenerated from alg/dict/runs.go on every run (harness/cmd/extract/gotr.go);
+`AC/RunsTie.lean` proves the translated function equal to the model (`runsChain_tie`: every input, no
+panic; `Chain.Program` through `program_tie`, the shift map as a function, the `for ; s[lb] < la; s[lb]++`
+loop as `extend`). The property over the translated Go function itself: -/
+
+/-- the translated `RunsChain` on a valid lengths chain with machine-word values returns, without error, a
+    valid addition chain containing `2^l − 1` for every length `l` of the input -/
+theorem C11_src_runsChain (lc : Chain) (hc : IsChain lc) (hsmall : ∀ l ∈ lc, l < 2 ^ 64) :
+    ∃ c, AC.Gen.Program.dictRunsChain lc = some (c, none) ∧ IsChain c ∧ ∀ l ∈ lc, onesI l.toNat ∈ c := by
+  obtain ⟨c, h1, h2, h3⟩ := C11_runsChain lc hc hsmall
+  obtain ⟨r, hr, hm⟩ := AC.RunsTie.runsChain_tie lc
+  rw [h1] at hm
+  exact ⟨c, by rw [hr, hm], h2, h3⟩
+
+/-- a sequence that is not an addition chain is refused by the translated `RunsChain` (nil chain, an error) -/
+theorem C11_src_refuse_invalid (lc : Chain) (h : ¬ IsChain lc) :
+    ∃ r, AC.Gen.Program.dictRunsChain lc = some r ∧ r.1 = [] ∧ r.2.isSome = true := by
+  obtain ⟨r, hr, hm⟩ := AC.RunsTie.runsChain_tie lc
+  rw [C11_refuse_invalid lc h] at hm
+  exact ⟨r, hr, hm⟩
 
 end AC.Props.C11
